@@ -134,7 +134,34 @@ def transitive_imports(mod: str) -> list[str]:
 
 def theorem_names(mod: str) -> list[dict]:
     """Fully qualified names (and line spans) of every `theorem` in a Props file."""
-    src = lean_module_path(mod).read_text().splitlines()
+    raw = lean_module_path(mod).read_text()
+    # blank out comments (keeping line numbers) so that a doc comment line starting with the word "theorem" is not counted
+    def _blank(m):
+        return re.sub(r"[^\n]", " ", m.group(0))
+    stripped, depth, i, out = raw, 0, 0, []
+    while i < len(raw):
+        if raw.startswith("/-", i):
+            j, d = i + 2, 1
+            while j < len(raw) and d:
+                if raw.startswith("/-", j):
+                    d += 1
+                    j += 2
+                elif raw.startswith("-/", j):
+                    d -= 1
+                    j += 2
+                else:
+                    j += 1
+            out.append(re.sub(r"[^\n]", " ", raw[i:j]))
+            i = j
+        elif raw.startswith("--", i):
+            j = raw.find("\n", i)
+            j = len(raw) if j < 0 else j
+            out.append(" " * (j - i))
+            i = j
+        else:
+            out.append(raw[i])
+            i += 1
+    src = "".join(out).splitlines()
     ns: list[str] = []
     out = []
     for ln, line in enumerate(src, 1):
@@ -223,7 +250,7 @@ def lean_check(prop_id: str, extra_targets: Iterable[str] = (), pre: Callable[[]
         # in any imported file breaks every obligation of the property
         text = out + err
         rel = str(lean_module_path(mod).relative_to(LEAN))
-        lines_hit = [int(x) for x in re.findall(re.escape(rel) + r":(\d+):\d+", text)]
+        lines_hit = [int(x) for x in re.findall(r"error: " + re.escape(rel) + r":(\d+):\d+", text)]
         other_err = [l for l in text.splitlines() if l.startswith("error:") and rel not in l
                      and "Lean exited" not in l and "build failed" not in l]
         for t in thms:
